@@ -107,6 +107,11 @@ func (d *D) Base(idx int, ctx *core.Ctx) *core.Scenario {
 		sc.Kind = "l1:maplife"
 		sc.Inputs = nil
 	}
+	if idx%19 == 13 {
+		sc.Program, sc.Inputs = work.Formats(r)
+		sc.Kind = "l1:formats"
+		sc.Events = nil
+	}
 	if idx%6 == 4 {
 		// programs that break ONE static rule and are rejected today: if a tree accepts one, it must still not go wrong
 		sc.Program = work.NearValid((idx/6 + int(ctx.Seed%97)*131) % work.NearValidCount)
